@@ -252,3 +252,27 @@ def rule_n2(repo, res):
                                 f"every path ({'; '.join(problems)}): a written sign (or radix) is dropped for some grammar/"
                                 "decoder pairing and the integer has the wrong value", where=f"pvl/decoder.py:{r.lineno}"))
     res.floor("based-integer int(..., base=...) returns in decoder.py", n, 1)
+
+
+def rule_fmt(repo, res, modules=("parser", "lexer", "decoder", "token", "exceptions", "__init__")):
+    """FMT: str.format() is applied to constant templates only.  A template that already contains interpolated
+    run-time text (an f-string, or adjacent literals one of which is an f-string: `'... {}' f'{t}'.format(x)` parses as
+    one joined string) turns braces of the *label text* into replacement fields: KeyError / IndexError / AttributeError
+    escape the loader for a token such as "{b}"."""
+    n = 0
+    for mname in modules:
+        if mname not in repo.modules:
+            continue
+        for x in ast.walk(repo.module(mname).tree):
+            if isinstance(x, ast.Call) and isinstance(x.func, ast.Attribute) and x.func.attr in ("format", "format_map"):
+                recv = x.func.value
+                n += 1
+                dyn = any(isinstance(y, ast.FormattedValue) for y in ast.walk(recv)) if isinstance(recv, (ast.JoinedStr, ast.BinOp)) else False
+                res.oblige("FMT", f"pvl/{mname}.py: `{norm(x, 50)}` formats a constant template", ok=not dyn, nontrivial=False)
+                if dyn:
+                    res.add(Finding("FMT", f"{mname}", f"format() on a template with interpolated text",
+                                    f"`{norm(x, 80)}` in pvl/{mname}.py applies .format() to a string that already holds interpolated "
+                                    "run-time text: braces in that text (token text comes from the label) are read as replacement fields, "
+                                    "so KeyError / IndexError / AttributeError escape instead of the documented error types",
+                                    where=f"pvl/{mname}.py:{x.lineno}"))
+    res.oblige("FMT", f"{n} str.format() call(s) on the load path examined", ok=True, nontrivial=False)
